@@ -466,6 +466,7 @@ PROPS = {
         "Hd.Pool.step_waiters", "Hd.Pool.run_waiters", "Hd.Pool.C03_cancel_releases", "Hd.Pool.C03_owner_drop_cancels",
         "Hd.Pool.C03_released_waiter_resolves", "Hd.Pool.C03_released_dialer_continues", "Hd.Pool.C03_resolves_when_attempt_done",
         "Hd.Pool.C03_marker_has_running_owner", "Hd.Pool.C03_waiter_waits_for_running_attempt", "Hd.Pool.C03_only_owner_cancels",
+        "Hd.Pool.C03_waiter_channel_usable", "Hd.Pool.C03_pending_waiter_waits_for_running_attempt", "Hd.Pool.step_waitChan", "Hd.Pool.run_waitChan",
         "Hd.Pool.step_minv", "Hd.Pool.run_minv"]),
     "C04": pool_prop("HdModel.Props.C04", ["C04/"], ["Hd.Pool.C04_reuse_issue", "Hd.Pool.C04_reuse_poll", "Hd.Pool.C04_share_stays_pooled",
         "Hd.Pool.C04_dedup_issue", "Hd.Pool.C04_dedup_poll", "Hd.Pool.C04_marker_owner", "Hd.Pool.issue_found", "Hd.Pool.issue_missing",
